@@ -50,6 +50,8 @@ RULE = ("env: generated programs (2-8 minimum steps quick / 2-12 thorough, popul
         "steps, durations that are no multiple of the step) x 8 (quick: 3 sub-processes) / 24 (thorough: 6 sub-processes) environments grouped into fresh "
         "sub-processes by PYTHONHASHSEED; distinct = distinct program; trivial = empty population and no births")
 ASSUMPTIONS = [
+    "schedule cases are emitted relative to their first clock value and in units of the gcd of their durations (Sim.v is "
+    "invariant under this affine change of time units: it only adds, subtracts, compares and takes minima of times)",
     "the probes' own logs (births, untracking, snoozes) and the step_size column after a step are the inputs of the "
     "schedule model (component behaviour is an arbitrary function in Sim.v)",
     "Timedelta/Timedelta division in run_until is exact for the magnitudes used (durations of a few days, steps of hours)",
